@@ -668,6 +668,8 @@ package redis
 //@   invariant {C10} H_calls == old(H_calls) && key == old(argS(args, 0))
 //@   invariant {C10} old(strArg(args, 0) && strArg(args, 1) && !isZaddOpt(argS(args, 1)) && noNilArgs(args)) ==> args.index == old(args.index) + 3 + 2 * len(members)
 //@   invariant {C10} forall k int :: 0 <= k && k < len(args.msgs) ==> args.msgs[k] == old(args.msgs[k])
+// the one instance of "no nil argument" that the exit of the loop needs, stated without a quantifier
+//@   invariant {C10} old(noNilArgs(args)) && args.index < len(args.msgs) ==> args.msgs[args.index] != nil
 //@   invariant {C10} err == nil
 //@   invariant {C10} !isNaN(score) && forall k int :: 0 <= k && k < len(members) ==> members[k] != nil && !isNaN(members[k].Score)
 //@   decreases len(args.msgs) - args.index + (err == nil ? 1 : 0)
